@@ -304,6 +304,14 @@ func init() {
 			// a reservation larger than the balance must not swallow money received later
 			cases = append(cases, apiCase("C08", "save;credit;spend", []string{"save %N from @a", sendFixed("USD", "@world", "@a"), sends[0]}, nil))
 			cases = append(cases, apiCase("C08", "save;credit;spend", []string{"save [USD *] from @a", sendFixed("USD", "@b", "@a"), sends[2]}, nil))
+			// two saves on one account (two assets, two amounts), stores that answer exactly what is asked
+			for _, kind := range []string{"exact", "sparse", "interned"} {
+				st := map[string][2]string{"_store": {"", kind}}
+				cases = append(cases, apiCase("C08", "two-saves/"+kind+"-store", []string{"save %N from @a", "save [EUR 3] from @a", sends[0]}, st))
+				cases = append(cases, apiCase("C08", "two-saves/"+kind+"-store", []string{"save [EUR *] from @a", "save %N from @a", sends[1]}, st))
+				cases = append(cases, apiCase("C08", "two-saves/"+kind+"-store", []string{"save %N from @a", "save %N from @a", sends[3]}, st))
+				cases = append(cases, apiCase("C08", "save;send/"+kind+"-store", []string{saves[0], sends[2]}, st))
+			}
 			if tier == "thorough" {
 				for _, s1 := range saves {
 					for _, s2 := range saves {
@@ -318,7 +326,7 @@ func init() {
 			return withObserved(cases, obsEvery(tier))
 		},
 		Bounds: stdBounds(
-			map[string]interface{}{"saves": "1", "sends": "1..2", "numbers": "unbounded integers (balance any sign, saved amount below/equal/above)"},
+			map[string]interface{}{"saves": "1..2 (two assets; exact / sparse / interned stores besides StaticStore)", "sends": "1..2", "numbers": "unbounded integers (balance any sign, saved amount below/equal/above)"},
 			map[string]interface{}{"saves": "1..2", "sends": "1..2, all orders", "numbers": "unbounded integers"}),
 		Assumptions: apiAssumptions, Stubs: apiStubs, Outside: apiOutside,
 	})
